@@ -254,36 +254,68 @@ def _res(tok):
         return tok
 
 
+def _cb(l):
+    """('WC', id) / ('HWM', id, n) for a callback line of the harness, else None"""
+    w = l.split()
+    if len(w) >= 3 and w[0] == "cb" and w[1] == "WC":
+        return ("WC", int(w[2]))
+    if len(w) >= 4 and w[0] == "cb" and w[1] == "HWM":
+        return ("HWM", int(w[2]), int(w[3]))
+    return None
+
+
 def callback_oracle(o):
-    """C13.  Always: every HWM argument is at least the mark (and the mark is positive), write-complete callbacks
-    never outnumber accepted sends.  For histories without operations inside callbacks: an exact replay of the
-    backlog from the recorded acceptance pattern, predicting every WC / HWM callback, its argument and the
-    iteration that delivers it."""
+    """C13.  The harness's callbacks carry an identity (`cb WC <id>`, `cb HWM <id> <n>`; `setwc <id>` / `sethwm <id>
+    <mark>` install callback <id>, 0 = none; `config` installs 1 or none).
+    On every history: neither callback ever runs inside a user operation - only while the loop iterates (they are
+    delivered out of the functor queue); write-complete callbacks never outnumber accepted sends; a callback that
+    runs was installed before; every HWM argument is at least the smallest positive mark in force so far.
+    For the part of a history before the first operation performed inside a callback: an exact replay of the backlog
+    from the recorded acceptance pattern, predicting every WC / HWM callback, WHICH callback it is (the one
+    installed when the notification was scheduled), its argument and the iteration that delivers it."""
     fails = []
     hasWC, hasHWM, mark = o.cfg
     L, F, late = classify_sends(o)
     nsend = len(L) + len(F)
-    wcs = sum(1 for i in range(len(o.blocks)) for l in o.events(i) if l == "cb WC")
+    wcs = sum(1 for i in range(len(o.blocks)) for l in o.events(i) if l.startswith("cb WC"))
     if wcs > nsend:
         fails.append(("wc-without-send", "%d write-complete callbacks for %d accepted send()s" % (wcs, nsend)))
-    if not hasWC and wcs:
-        fails.append(("wc-unset", "write-complete callback invoked although none was set"))
+    # chronological pass: installed identities / marks so far
+    wc_ids, hwm_ids, marks = set([1] if hasWC else []), set([1] if hasHWM else []), set([mark] if hasHWM else [])
     for i in range(len(o.blocks)):
-        for l in o.events(i):
-            if l.startswith("cb HWM"):
-                n = int(l.split()[2])
-                if not hasHWM or mark == 0 or n < mark:
-                    fails.append(("hwm-below-mark", "step %d: high-water callback with %d, mark %d" % (i, n, mark)))
-    if fails or any(a.hook for a in o.acts) or any(op.split()[0] == "hook" for op in o.ops):
+        isiter = i < o.n and o.ops[i] == "iter"
+        for l in o.blocks[i]:
+            if l.startswith("# act "):
+                w = l.split()
+                if w[4] == "setwc" and int(w[5]):
+                    wc_ids.add(int(w[5]))
+                if w[4] == "sethwm" and int(w[5]):
+                    hwm_ids.add(int(w[5]))
+                    marks.add(int(w[6]))
+                continue
+            c = _cb(l) if l.startswith("cb ") else None
+            if c is None:
+                continue
+            if not isiter and not fails:
+                fails.append(("callback-inline", "step %d `%s`: the %s callback ran inside the user's call; it must be delivered by the "
+                              "loop out of its functor queue, after the call has returned" % (i, o.ops[i] if i < o.n else "?", "write-complete" if c[0] == "WC" else "high-water-mark")))
+            if c[0] == "WC" and c[1] not in wc_ids:
+                fails.append(("wc-unset", "step %d: write-complete callback %d invoked although it was never installed" % (i, c[1])))
+            if c[0] == "HWM":
+                pos = [m for m in marks if m > 0]
+                if c[1] not in hwm_ids or not pos or c[2] < min(pos):
+                    fails.append(("hwm-below-mark", "step %d: high-water callback %d with %d; marks in force so far: %s" % (i, c[1], c[2], sorted(marks))))
+    if fails:
         return fails
     # ---- exact replay
     b = 0
     st = "N"
-    fq = []   # functor queue as far as it matters: ("send", len) | ("WC",) | ("HWM", n)
+    wc_id, hwm_id = (1 if hasWC else 0), (1 if hasHWM else 0)
+    fq = []   # functor queue as far as it matters: ("send", len) | ("WC", id) | ("HWM", id, n)
 
     def cross(old, rem):
-        if rem > 0 and hasHWM and old < mark <= old + rem:
-            fq.append(("HWM", old + rem))
+        if rem > 0 and hwm_id and old < mark <= old + rem:
+            fq.append(("HWM", hwm_id, old + rem))
 
     class Bad(Exception):
         pass
@@ -302,8 +334,8 @@ def callback_oracle(o):
             if isinstance(r, int):
                 rem = n - min(r, n)
                 if rem == 0:
-                    if hasWC:
-                        fq.append(("WC",))
+                    if wc_id:
+                        fq.append(("WC", wc_id))
                 else:
                     cross(0, rem)
                     b = rem
@@ -320,8 +352,10 @@ def callback_oracle(o):
         lines = o.blocks[i]
         if any(l == "destroyed" for l in lines) or op[0] == "ownerDestroy":
             return fails
+        if any(l.startswith("# act hook:") for l in lines):
+            return fails      # from here on the user's code acts inside callbacks: only the clauses above are judged
         writes = o.env(i, "write")
-        obs = [l for l in o.events(i) if l == "cb WC" or l.startswith("cb HWM")]
+        obs = [c for c in (_cb(l) for l in o.events(i) if l.startswith("cb ")) if c]
         exp = []
         try:
             if op[0] == "establish":
@@ -342,6 +376,10 @@ def callback_oracle(o):
                     st = "X"
                 elif a.name in ("forceClose", "forceCloseDelay") and st in ("C", "X"):
                     st = "X"
+                elif a.name == "setwc":
+                    wc_id = int(a.args[0])
+                elif a.name == "sethwm":
+                    hwm_id, mark = int(a.args[0]), int(a.args[1])
             elif op[0] == "iter":
                 rev = 0
                 for p in o.env(i, "poll"):
@@ -362,24 +400,28 @@ def callback_oracle(o):
                     r = _res(w[3])
                     if isinstance(r, int) and r > 0:
                         b -= min(r, b)
-                        if b == 0 and hasWC:
-                            fq.append(("WC",))
+                        if b == 0 and wc_id:
+                            fq.append(("WC", wc_id))
                 n0 = len(fq)
                 batch, rest = fq[:n0], fq[n0:]
                 del fq[:]
                 for it in batch:
                     if it[0] == "send":
                         do_send(it[1], writes)
-                    elif it[0] == "WC":
-                        exp.append("cb WC")
                     else:
-                        exp.append("cb HWM %d" % it[1])
+                        exp.append(it)
                 if has_down:
                     st = "D"
             if writes:
                 raise Bad("a write() call the backlog bookkeeping cannot explain: %s" % " ".join(writes[0]))
             if exp != obs:
-                raise Bad("expected callbacks %r, the implementation ran %r" % (exp, obs))
+                def show(cs):
+                    return "[" + ", ".join("WC#%d" % c[1] if c[0] == "WC" else "HWM#%d(%d)" % (c[1], c[2]) for c in cs) + "]"
+                if [(c[0],) + c[2:] for c in exp] == [(c[0],) + c[2:] for c in obs]:
+                    fails.append(("callback-identity", "step %d `%s`: the callback delivered is not the one that was installed when the "
+                                  "notification was scheduled: expected %s, the implementation ran %s" % (i, o.ops[i], show(exp), show(obs))))
+                    return fails
+                raise Bad("expected callbacks %s, the implementation ran %s" % (show(exp), show(obs)))
             s = o.st[i]
             if s and s.get("state") in ("C", "X", "D") and st != "D" and int(s["backlog"]) != b:
                 raise Bad("backlog is %s, the acceptance pattern implies %d" % (s["backlog"], b))
